@@ -220,7 +220,11 @@ MsgRule(F, m) ==
    V-enum-first-zero   protoc: The first enum value must be zero for open enums.   (proto3, edition 2023)
    V-enum-dup-num      protoc: "zb" uses the same enum value as "za". If this is intended, set
                                'option allow_alias = true;' to the enum definition.   (not with allow_alias)
-   V-oneof-empty       protoc: Oneof must have at least one field. *)
+   V-oneof-empty       protoc: Oneof must have at least one field.
+   V-enum-num-reserved   protoc: Enum value "zb" uses reserved number 6.          (also with allow_alias)
+   V-enum-name-reserved  protoc: Enum value "zb" is reserved.
+   V-enum-range-overlap  protoc: Reserved range 5 to 7 overlaps with already-defined range 7 to 9.
+   An enum's reserved ranges are INCLUSIVE at both ends (rr of an enum declaration). *)
 OpenEnums(F) == F.syntax # "proto2"
 EnumRule(F, e) ==
   LET vs == KidSeq(F, e)
@@ -228,6 +232,10 @@ EnumRule(F, e) ==
      ELSE (IF OpenEnums(F) /\ F.decls[vs[1]].num # 0 THEN {"V-enum-first-zero"} ELSE {})
           \cup (IF ~F.decls[e].alias /\ \E j, k \in 1..Len(vs) : j < k /\ F.decls[vs[j]].num = F.decls[vs[k]].num
                   THEN {"V-enum-dup-num"} ELSE {})
+          \cup (IF \E k \in 1..Len(vs) : InRanges(F.decls[vs[k]].num, F.decls[e].rr) THEN {"V-enum-num-reserved"} ELSE {})
+          \cup (IF \E k \in 1..Len(vs) : F.decls[vs[k]].name \in Range(F.decls[e].rn) THEN {"V-enum-name-reserved"} ELSE {})
+          \cup (IF \E j, k \in 1..Len(F.decls[e].rr) : j < k /\ Overlap(F.decls[e].rr[j], F.decls[e].rr[k])
+                  THEN {"V-enum-range-overlap"} ELSE {})
 OneofRule(F, o) == IF KidSeq(F, o) = <<>> THEN {"V-oneof-empty"} ELSE {}
 
 (* maps
@@ -408,7 +416,8 @@ SynthCertain(ws) ==
      D-map-entry    map<K,V> f = n  =>  nested message N-map-entry-name(f) {K key = 1; V value = 2;}
                     with options.map_entry, placed among the nested messages in source order; the field
                     is repeated TYPE_MESSAGE with that type
-     D-ranges       extension_range / reserved_range with exclusive end
+     D-ranges       extension_range / reserved_range of a message with EXCLUSIVE end; reserved_range of an
+                    enum with INCLUSIVE end; reserved_name; all in declaration order
      D-deps         dependency in source order, public_dependency = 0-based indices
      D-ext-options  the custom options of an element: the extension numbers present in its options message
                     (each set to 1), ascending, as member ext_options
@@ -460,6 +469,8 @@ EnumD(ws, env, g, e) ==
       value |-> MapSeq(KidSeq(F, e), LAMBDA v : [name |-> F.decls[v].name, number |-> F.decls[v].num]
                                                 @@ OptsD(ws, env, g, v))]
      @@ Opt(F.decls[e].alias, [allow_alias |-> TRUE])
+     @@ Opt(F.decls[e].rr # <<>>, [reserved_range |-> MapSeq(F.decls[e].rr, LAMBDA r : [start |-> r[1], end |-> r[2]])])
+     @@ Opt(F.decls[e].rn # <<>>, [reserved_name |-> F.decls[e].rn])
      @@ OptsD(ws, env, g, e)
 
 (* the synthetic entry message of map field d *)
